@@ -128,6 +128,10 @@ var c12 = gen.Register(&gen.Check[caseC12]{
 		for _, v := range gen.DictFixed(ref.P, gen.DictStride()) {
 			dictCases = append(dictCases, mk12("invert", v, z), mk12("square", v, z), mk12("mul", v, v), mk12("neg", v, z), mk12("sqrtratio", v, two),
 				caseC12{Op: "mul", U: FV{Hex: gen.H(v), Mont: true}, V: fv(v), Prior: fv(two)}, caseC12{Op: "bytes", U: FV{Hex: gen.H(v), Mont: true}, V: fv(z), Prior: fv(two)})
+			if v.Sign() != 0 { // ... and as the SECOND operand (the denominator), as a value and as a Montgomery form
+				dictCases = append(dictCases, mk12("sqrtratio", big.NewInt(3), v), caseC12{Op: "sqrtratio", U: fv(big.NewInt(5)), V: FV{Hex: gen.H(v), Mont: true}, Prior: fv(two)},
+					caseC12{Op: "mul", U: fv(big.NewInt(5)), V: FV{Hex: gen.H(v), Mont: true}, Prior: fv(two)}, caseC12{Op: "sub", U: fv(big.NewInt(5)), V: FV{Hex: gen.H(v), Mont: true}, Prior: fv(two)})
+			}
 		}
 		out := []caseC12{
 			mk12("add", pm1, bigOne), mk12("add", pm1, pm1), mk12("sub", z, bigOne), mk12("sub", bigOne, pm1), mk12("mul", pm1, pm1),
